@@ -82,7 +82,9 @@ def run(tier, seed, mutant=None, only_validate=False):
         cfgs = [{"kind": "periodic", "poll": 2, "cons": "future"}, {"kind": "periodic", "poll": 2, "cons": "sync"},
                 {"kind": "periodic", "poll": 3, "cons": "coro"},
                 {"kind": "iterable", "ni": 4, "cons": "future"}, {"kind": "iterable", "ni": 4, "cons": "sync"},
-                {"kind": "iterable", "ni": 3, "cons": "coro"}]
+                {"kind": "iterable", "ni": 3, "cons": "coro"},
+                {"kind": "iterable", "ni": 4, "cons": "sync", "stop_at": 2}, {"kind": "iterable", "ni": 4, "cons": "future", "stop_at": 1},
+                {"kind": "periodic", "poll": 2, "cons": "sync", "stop_at": 2}]
         runs = drive(work, cfgs, seed, 7 if tier == "quick" else 9, 250 if tier == "quick" else 3000,
                      150 if tier == "quick" else 1500, mutant=mutant)
         # reuse the generic grouping / validation of amod.node_engine by handing it pre-recorded runs
